@@ -280,3 +280,7 @@ COMPONENTS[1].split = split
 
 from .gen_E2E import COMPONENT_E2E  # noqa: E402  end-to-end instance (design/E2E.md)
 COMPONENTS.append(COMPONENT_E2E)
+
+
+from .gen_E2E2 import COMPONENT_E2E2  # noqa: E402  second end-to-end instance (design/E2E.md)
+COMPONENTS.append(COMPONENT_E2E2)
